@@ -142,6 +142,14 @@ func c18Decoder(c *Ctx) *ssa.Function {
 		_, okE := ana.MatchX(c.P, "ext#1(obj(alloc<ed.Point>, call<(*ed.Point).SetBytes>(self, p0)))", et)
 		r.Check(ok && okE && avoid[e.Instr.Block()], "C18.canonical-decoder.then-setbytes", c.ipos(e.Instr), "otherwise the result (and error) of new(Point).SetBytes(x): %s", short(vt.String(), 120))
 	}
+	if nTab == 1 {
+		// the same two comparisons written as a loop over the whole two-entry table
+		inLoop := len(edgesMatching(b, "call<bytes.Equal>(p0, load(iaddr(global<"+vrfPkg+"nonCanonicalSignBytes>, ind<+1>(0))))", "call<bytes.Equal>(load(iaddr(global<"+vrfPkg+"nonCanonicalSignBytes>, ind<+1>(0))), p0)")) == 1
+		whole := len(edgesMatching(b, "bin<<>(ind<+1>(0), alt(2, len(_)))")) == 1
+		if inLoop && whole {
+			nTab = 2
+		}
+	}
 	r.Check(nTab == 2 && canonFn != nil, "C18.canonical-decoder.tests", c.P.Pos(dec.Pos()), "decoder applies the y<p test and compares with both tabled encodings (%d table comparisons)", nTab)
 	// table by value
 	in := bitdom.New(c.P.SSA, c.wordBits())
@@ -179,35 +187,60 @@ func c18Decoder(c *Ctx) *ssa.Function {
 	// y < p test
 	if canonFn != nil {
 		r.Fn(ana.ShortFunc(canonFn))
-		cb := ana.NewBuilder(c.P, canonFn)
-		e1 := plainEdges(edgesMatching(cb, "bin<<>(load(iaddr(p0, 0)), 237)"))
-		loopIn := len(edgesMatching(cb, "bin<<=>(ind<+1>(1), 30)")) == 1
-		e2 := plainEdges(edgesMatching(cb, "bin<!=>(load(iaddr(p0, ind<+1>(1))), 255)"))
-		okRet := loopIn && len(e1) == 1 && len(e2) == 1
-		nTrue, nFinal := 0, 0
-		for _, e := range ana.Exits(canonFn) {
-			if e.Panic {
-				okRet = false
-				continue
-			}
-			t := cb.Of(e.Results[0], e.Instr)
-			switch {
-			case t.String() == "true":
-				nTrue++
-				if !(mustPass(canonFn, e.Instr.Block(), e1) || mustPass(canonFn, e.Instr.Block(), e2)) {
-					okRet = false
+		// decided for all 2^256 encodings in the ANF domain: the predicate's result bit equals
+		//   y < 2^255−19  ⟺  ¬( bytes 1..30 = 0xFF ∧ low 7 bits of byte 31 = 0x7F ∧ byte 0 >= 0xED )
+		// — whatever loops, early returns or comparisons compute it
+		in := bitdom.New(c.P.SSA, c.wordBits())
+		x := in.SymSlice("x", 32, 8, 8, false)
+		ex, err := in.Call(canonFn, []bitdom.Val{x})
+		okSem := err == nil && ex != nil && !ex.Panic && len(ex.Results) == 1
+		detail := ""
+		if okSem {
+			res, isBV := ex.Results[0].(*bitdom.BV)
+			okSem = isBV && len(res.Bits) >= 1
+			if okSem {
+				hi := bitdom.One()
+				for i := 1; i <= 30; i++ {
+					for k := 0; k < 8; k++ {
+						hi = bitdom.And(hi, x.A.Elems[i].(*bitdom.BV).Bits[k])
+					}
 				}
-			case matches("bin<!=>(bin<|>(load(iaddr(p0, 31)), 128), 255)", t):
-				nFinal++
-			default:
-				// merged returns appear as phi
-				for _, rc := range ana.ReturnCases(canonFn, 0) {
-					_ = rc
+				for k := 0; k < 7; k++ {
+					hi = bitdom.And(hi, x.A.Elems[31].(*bitdom.BV).Bits[k])
 				}
-				okRet = false
+				// byte 0 >= 237 as a polynomial of its 8 bits (Möbius transform of the truth table)
+				b0 := x.A.Elems[0].(*bitdom.BV).Bits
+				ge := bitdom.Zero()
+				for sub := 0; sub < 256; sub++ {
+					coef := false
+					for t := sub; ; t = (t - 1) & sub {
+						if t >= 237 {
+							coef = !coef
+						}
+						if t == 0 {
+							break
+						}
+					}
+					if coef {
+						m := bitdom.One()
+						for k := 0; k < 8; k++ {
+							if sub>>uint(k)&1 == 1 {
+								m = bitdom.And(m, b0[k])
+							}
+						}
+						ge = bitdom.Xor(ge, m)
+					}
+				}
+				want := bitdom.Not(bitdom.And(hi, ge))
+				okSem = bitdom.Equal(res.Bits[0], want)
+				if !okSem {
+					detail = "result differs from y < p on some encoding"
+				}
 			}
+		} else if err != nil {
+			detail = err.Error()
 		}
-		r.Check(okRet && nTrue >= 1 && nFinal == 1, "C18.canonical-decoder.y-less-than-p", c.P.Pos(canonFn.Pos()), "canonical-y test: true if x[0] < 237, or some x[i] != 255 for i = 1..30, else x[31]|128 != 255 (y < 2^255−19)")
+		r.Check(okSem && len(in.Cons) == 0, "C18.canonical-decoder.y-less-than-p", c.P.Pos(canonFn.Pos()), "canonical-y test decided in the ANF domain over all 32 symbolic bytes: true exactly when the little-endian y (top bit ignored) is < 2^255−19 %s", detail)
 	}
 	// who-may-call SetBytes on points in package vrf
 	bad := 0
